@@ -109,19 +109,28 @@ def enableFut (withWaker : Bool) (s : State) : State :=
   if s.permit then { s with permit := false, fut := .done }
   else { s with waiter := .registered withWaker, fut := .waiting }
 
-/-- N4: polls the `Notified` future with the task's waker; `true` = `Ready`. -/
-def pollNotified (s : State) : State × Bool :=
+/-- N4: would a poll of the `Notified` future return `Ready`? -/
+def pollReady (s : State) : Bool :=
   match s.fut with
-  | .done => (s, true)
+  | .done => true
   | .waiting =>
     match s.waiter with
-    | .notified => ({ s with waiter := .none, fut := .done }, true)
-    | .registered _ => ({ s with waiter := .registered true }, false)
-    | .none => (s, false)                    -- not reachable (`Inv.tie`)
-  | .init =>
-    let s' := enableFut true s
-    (s', s'.fut == .done)
-  | .absent => (s, false)                    -- not reachable
+    | .notified => true
+    | _ => false
+  | .init => s.permit
+  | .absent => false                         -- not reachable
+
+/-- N4: the effect of polling the `Notified` future with the task's waker. -/
+def pollNotified (s : State) : State :=
+  match s.fut with
+  | .done => s
+  | .waiting =>
+    match s.waiter with
+    | .notified => { s with waiter := .none, fut := .done }
+    | .registered _ => { s with waiter := .registered true }
+    | .none => s                             -- not reachable (`Inv.tie`)
+  | .init => enableFut true s                -- not reachable in `recv` (`enable()` comes first)
+  | .absent => s                             -- not reachable
 
 /-- N5. -/
 def dropNotified (s : State) : State :=
@@ -131,9 +140,6 @@ def dropNotified (s : State) : State :=
     | .notified => { s with waiter := .none, fut := .absent, permit := true }
     | _ => { s with waiter := .none, fut := .absent }
   | _ => { s with fut := .absent }
-
-/-- `shared.slot.lock().unwrap().take()`. -/
-def takeSlot (s : State) : State × Option (List Nat) := ({ s with slot := none }, s.slot)
 
 /-- The hook's `f`: `slot.get_or_insert_with(Vec::new).push(x)`. -/
 def applyPush (slot : Option (List Nat)) (x : Nat) : Option (List Nat) :=
@@ -160,9 +166,8 @@ def sStep (s : State) : State :=
 
 /-- The poll of `notified` at line 173 (first poll or re-poll after `Pending`). -/
 def awaitStep (s : State) : State :=
-  match pollNotified s with
-  | (s', true) => { dropNotified s' with rpc := .loopTop }      -- end of the loop body: `notified` dropped (`Done`)
-  | (s', false) => { s' with rpc := .parked, woken := false }
+  if pollReady s then { dropNotified (pollNotified s) with rpc := .loopTop }  -- end of the loop body: `notified` dropped
+  else { pollNotified s with rpc := .parked, woken := false }
 
 /-- One atomic step of the consumer task (it is being polled). -/
 def rStep (s : State) : State :=
@@ -170,14 +175,12 @@ def rStep (s : State) : State :=
   | .created => { s with rpc := .enable, fut := .init }
   | .loopTop => { s with rpc := .enable, fut := .init }
   | .enable => { enableFut false s with rpc := .take1 }
-  | .take1 =>
-    match takeSlot s with
-    | (s', some v) => { s' with rpc := .ret (some v) }
-    | (s', none) => { s' with rpc := .loadFlag }
+  | .take1 =>                                 -- `shared.slot.lock().unwrap().take()`
+    match s.slot with
+    | some v => { s with slot := none, rpc := .ret (some v) }
+    | none => { s with rpc := .loadFlag }
   | .loadFlag => if s.senderDropped then { s with rpc := .take2 } else { s with rpc := .await }
-  | .take2 =>
-    match takeSlot s with
-    | (s', v) => { s' with rpc := .ret v }
+  | .take2 => { s with slot := none, rpc := .ret s.slot }
   | .ret v => { dropNotified s with rpc := .idle, received := s.received ++ [v] }
   | .await => awaitStep s
   | .parked => awaitStep s
